@@ -839,6 +839,13 @@ class FakeNetlinkSocket:
         if not self.queue:
             # a real daemon would block forever here
             self.node.blocked_forever('netlink recv() with no reply pending')
+        if self in self.kernel.event_socks and self.node.recv_fail['nl']:
+            # the kernel could not queue an event for this listener: recv() fails with ENOBUFS and the event is lost
+            f = self.node.recv_fail['nl'].pop(0)
+            self.queue.pop(0)
+            self.node.world.count_fault('sys.nl_recv')
+            self.node.world.record(('recvfail', self.node.name, 'nl'))
+            raise f()
         return self.queue.pop(0)[:n]
 
     def close(self):
